@@ -106,6 +106,8 @@ def build(c):
     a = np.array(c.get('a', [0.0] * D), dtype=float)
     b = np.array(c.get('b', [1.0] * D), dtype=float)
     f = make_function(c['func'], D)
+    if c.get('nocache'):
+        f.deactivate_caching()      # the integrand's value cache switched off before the run
     ref = reference(c['func'], f, a, b)
     if c.get('zero_ref'):
         ref = np.zeros_like(ref)
